@@ -69,7 +69,7 @@ public:
         const auto n = m_samples;
 
         const auto score = make_score(criterion, rss, k, n);
-        if (std::isfinite(score) && score < m_score)
+        if (is_better(*this, score, feature))
         {
             m_score   = score;
             m_hashes  = hashes;
@@ -107,7 +107,7 @@ public:
             const auto n = m_samples;
 
             const auto score = make_score(criterion, rss, k, n);
-            if (std::isfinite(score) && score < m_score)
+            if (is_better(*this, score, feature))
             {
                 m_score       = score;
                 m_feature     = feature;
@@ -152,7 +152,7 @@ public:
             const auto n = m_samples;
 
             const auto score = make_score(criterion, rss, k, n);
-            if (std::isfinite(score) && score < m_score)
+            if (is_better(*this, score, feature))
             {
                 m_score       = score;
                 m_hashes      = hashes;
